@@ -137,8 +137,11 @@ bool decList(const std::string& s, List& out) {
   }
   return pos == s.size();
 }
+// rendering flavour of the description: every '/' of a path written as the YAML escape "\/" (JSON style), so that every
+// element of a list has to be unescaped by the description parser
+bool gEscapeSlashes = false;
 std::string makeSpec(bool fs, const List& roots, const std::vector<List>& h) {
-  std::string s = std::string(fs ? "fs" : "mem") + ";roots=" + encList(roots) + ";h=";
+  std::string s = std::string(fs ? "fs" : gEscapeSlashes ? "memesc" : "mem") + ";roots=" + encList(roots) + ";h=";
   for (size_t i = 0; i < h.size(); ++i) s += (i ? ";" : "") + encList(h[i]);
   return s;
 }
@@ -344,7 +347,7 @@ struct Env {
 
 std::string yq(const std::string& s) {
   std::string o = "\"";
-  for (char c : s) { if (c == '"' || c == '\\') o += '\\'; o += c; }
+  for (char c : s) { if (c == '"' || c == '\\' || (gEscapeSlashes && c == '/')) o += '\\'; o += c; }
   return o + "\"";
 }
 std::string description(const List& expected, const List& roots) {
@@ -736,6 +739,7 @@ int main(int argc, char** argv) {
         pos = e + 1;
       }
     }
+    if (f[0] == "memesc") { gEscapeSlashes = true; f[0] = "mem"; }
     bool ok = f.size() >= 4 && (f[0] == "mem" || f[0] == "fs") && f[1].compare(0, 6, "roots=") == 0 && f[2].compare(0, 2, "h=") == 0;
     List roots;
     std::vector<List> hist;
@@ -788,6 +792,9 @@ int main(int argc, char** argv) {
     for (size_t i = 0; i < P1.size(); ++i)
       for (size_t r = 0; r < R1.size(); ++r) items.push_back({7, i, r});
   }
+  //  9 mem  as 2, the description written with every '/' as the YAML escape "\/" (all list elements need unescaping)   (both)
+  for (size_t i = 0; i < PO.size(); ++i)
+    for (size_t r = 0; r < R1.size(); ++r) items.push_back({9, i, r});
   //  8 fs   link flavour (/r/ab -> ../o): previous in PO containing /r/ab, current of <= 1 path, <= 1 root   (both)
   for (size_t i = 0; i < PO.size(); ++i) {
     bool has = false;
@@ -834,6 +841,7 @@ int main(int argc, char** argv) {
     case 6: { Walker w{env, J, true}; w.walk(PO[it.l1], R1[it.roots], P2only, nullptr); break; }
     case 7: { Walker w{env, J, false, false}; w.walk(P1[it.l1], R1[it.roots], PU, &P1); break; }
     case 8: { Walker w{env, J, true, true, true}; w.walk(PO[it.l1], R1[it.roots], P1, nullptr); break; }
+    case 9: { gEscapeSlashes = true; Walker w{env, J, false}; w.walk(PO[it.l1], R1[it.roots], PO, nullptr); gEscapeSlashes = false; break; }
     }
   }
   J.flush();
